@@ -414,6 +414,9 @@ def decode(node, table, buf, pos=0, trace=None, depth=0, conv=None):
     return _decode(node, table, buf, pos, trace, depth, conv)
 
 
+ITEM_BUDGET = None  # set to [n] to bound the total number of collection items decoded (byte-level fuzzing)
+
+
 def _decode(node, table, buf, pos, trace, depth, conv):
     if depth > 400:
         raise RefError("other", "too deep")
@@ -468,6 +471,10 @@ def _decode(node, table, buf, pos, trace, depth, conv):
                 if size < 0:
                     raise RefError("other", "negative block size")
             start = pos
+            if ITEM_BUDGET is not None:
+                ITEM_BUDGET[0] -= c
+                if ITEM_BUDGET[0] < 0:
+                    raise RefError("other", "item budget exceeded")
             for _ in range(c):
                 if k == "array":
                     v, pos = decode(node["items"], table, buf, pos, trace, depth + 1, conv)
